@@ -67,7 +67,13 @@ def build_chain_model(world, root_index, outer_ns=None):
     classes = world['classes']
     insts = {}
     by_ns_cls = {}
+    seen_pipe = {}
     for ns, ci in mounts(world, root):
+        pk = (ns, world['configs'][ci]['pipe'])
+        if seen_pipe.setdefault(pk, ci) != ci:
+            # two configs declaring the same tasks in one namespace: a conflict (property C09, not claimed; DESIGN A3) -
+            # such a scenario is outside the domain the oracle speaks about and must never be judged
+            raise ValueError(f'scenario outside the oracle domain: pipeline {pk[1]} mounted at namespace {ns!r} through configs {seen_pipe[pk]} and {ci}')
         cfg = world['configs'][ci]
         vals = effective_values(world, cfg, ns, root)
         for cid in world['pipelines'][cfg['pipe']]['classes']:
